@@ -68,6 +68,10 @@ Definition level_name (cfg : sentry_cfg) (t : N) : str := assoc_n t (level_names
 (* QVariant::toString() for the value kinds of the model (list / map / null give the empty string) *)
 Definition to_qstring (v : json) : str :=
   match v with JStr s => s | JNum z => num_chars z | JBool true => [116;114;117;101] | JBool false => [102;97;108;115;101] | _ => [] end.
+(* For the numeric QVariant types of JsonDefs.v: QVariant::toString() gives the plain decimal digits for the four
+   integer types (int, uint, qlonglong, qulonglong); for double / float it gives the shortest 'g' form (1e+06),
+   which [to_qstring] does not render: a double under a routed name is outside the model (not generated). *)
+Definition int_typed (t : numty) : bool := match t with TDouble | TFloat => false | _ => true end.
 (* QVariantHash::value after the setAttribute calls: the last setting *)
 Definition look_last (k : str) (attrs : list (str * json)) : option json := look k (rev attrs).
 Definition slot_fields (cfg : sentry_cfg) (sl : slot) (attrs : list (str * json)) : list (str * json) :=
